@@ -169,6 +169,17 @@ impl Property for C12 {
         }
         let _ = base;
     }
+    fn fuzz_target(&self) -> Option<&'static str> {
+        Some("digit_string")
+    }
+    fn from_fuzz_bytes(&self, data: &[u8]) -> Option<Trace> {
+        let ops = crate::fuzzdec::decode_ops(data);
+        if ops.is_empty() {
+            None
+        } else {
+            Some(ops)
+        }
+    }
     fn check(&self, trace: &Trace, obs: &mut Obs) -> Result<(), String> {
         let mut d = DigitString::new();
         let mut m = Model::default();
